@@ -61,7 +61,9 @@ impl LazyClient {
             }
         });
 
-        self.client.set(Mutex::new(sender)).unwrap();
+        // Several requests can be the first ones to use the channel at the same time
+        // and each establish a connection, the first one to finish wins.
+        let _ = self.client.set(Mutex::new(sender));
         Ok(self.client.get().unwrap())
     }
 }
